@@ -3,7 +3,7 @@
 (* C04: enumeration of ClientHello messages with the JA4 parts Ja4.tla     *)
 (* assigns; checks on the definition that the sorted parts are invariant   *)
 (* under permutation and GREASE insertion while the original-order parts   *)
-(* follow the order.  Families: ver, presence, perm, grease, sizes, misc, embed, alpn, lookalike.  *)
+(* follow the order.  Families: ver, presence, perm, grease, sizes, misc, embed, alpn, lookalike, recver.  *)
 (***************************************************************************)
 EXTENDS Ja4, Json, IOUtils, TLC
 
@@ -88,7 +88,10 @@ Look == <<6698, 2586, 23146, 64251, 2827, 41120, 2571>>       \* 1a2a 0a1a 5a6a 
 LookCases == {[Base EXCEPT !.ciphers = <<4865, Look[i], 4866, G1, Look[j]>>, !.exts = <<Sni(Host), Sa(<<1027, Look[j], G2, 2052>>), Groups(<<29, Look[i]>>), Sv(<<772, Look[i]>>)>>] : i \in 1..7, j \in {1, 3, 6}}
              \cup {[Base EXCEPT !.exts = <<Sni(Host), Raw(Look[i]), Sv(<<772>>)>>] : i \in 1..7}
 
-Cases == CASE Fam = "lookalike" -> LookCases [] Fam = "alpn" -> AlpnCases [] Fam = "embed" -> EmbedCases [] Fam = "ver" -> VerCases [] Fam = "presence" -> PresenceCases [] Fam = "perm" -> PermCases
+\* ---- recver: the same hellos under every record-layer version 3.0 .. 3.4
+RecVerCases == {[recminor |-> m] @@ h : m \in 0..4, h \in {Base, [Base EXCEPT !.legacy = 769, !.exts = <<Sni(Host)>>], [Base EXCEPT !.exts = <<Sv(<<772, 771>>), AlpnE(<<H2>>)>>]}}
+
+Cases == CASE Fam = "recver" -> RecVerCases [] Fam = "lookalike" -> LookCases [] Fam = "alpn" -> AlpnCases [] Fam = "embed" -> EmbedCases [] Fam = "ver" -> VerCases [] Fam = "presence" -> PresenceCases [] Fam = "perm" -> PermCases
            [] Fam = "grease" -> GreaseCases [] Fam = "sizes" -> SizeCases [] Fam = "misc" -> MiscCases
 CaseSeq == SetToSeq(Cases)
 
